@@ -85,10 +85,11 @@ def run(ctx):
     # decoys do not consume the queue
     g = I.g
     for (b, n) in I.sd_pushes:
-        dfn = I.decoy_fn_of(n.kids[1])
-        if dfn is None:
+        dec = I.decoy_of(I.obj_builder, n.kids[1], b)
+        if dec is None:
             continue
-        if mock.name in cg.reachable_from(g, [dfn.name]):
+        dfn = dec.host
+        if mock.name in dec.callees:
             ctx.finding("C16.M1", dfn, "decoys-skip-queue", "decoy generation pops from the SALTS queue (the number of salts consumed depends on the random decoy count)", config=C)
         else:
             ctx.ok("C16.M1", dfn, "decoys-skip-queue", "decoy digests do not consume the queue", config=C)
@@ -125,7 +126,10 @@ def m2(ctx, fx, I, C):
                     if t.get("resolved") == fn.name:
                         sites.append((cf, b))
                 if fn.kind == "closure" and fn.parent == cf.name:
-                    sites.append((cf, None))
+                    # a closure runs (at most) where it is created and handed to an adaptor: the creation site stands for its call sites
+                    made = [bl["id"] for bl in cf.blocks if not bl["cleanup"] and any(st["k"] == "assign" and (st["rv"].get("aggregate") or {}).get("kind") == "closure"
+                                                                                     and st["rv"]["aggregate"].get("def") == fn.name for st in bl["stmts"])]
+                    sites.extend((cf, bb_) for bb_ in made) if made else sites.append((cf, None))
             if not sites:
                 continue
             ok = True
